@@ -666,7 +666,10 @@ func buildRows(ipver int) []row {
 			{"nat_key.addr", func(i []byte) []byte { return []byte(feFrom(i).Addr()) }},
 			{"nat_key.port", func(i []byte) []byte { return le16(feFrom(i).Port()) }},
 			{"nat_key.protocol", func(i []byte) []byte { return []byte{feFrom(i).Proto()} }},
-			// the nat_key part that doubles as struct calico_nat in the affinity key
+		}})
+	// the nat_key part that doubles as struct calico_nat in the affinity key
+	add(binding{gostruct: "nat.FrontendKey.AffinityKeyCopy", goSize: feKeySize,
+		dec: []decField{
 			{"nat_key.addr", func(i []byte) []byte { return []byte(feFrom(i).AffinityKeyCopy().Addr()) }},
 			{"nat_key.port", func(i []byte) []byte { return le16(feFrom(i).AffinityKeyCopy().Port()) }},
 			{"nat_key.protocol", func(i []byte) []byte { return []byte{feFrom(i).AffinityKeyCopy().Proto()} }},
